@@ -6,8 +6,6 @@ sys.path.insert(0, os.path.join(VERIF, "lib"))
 import props
 
 NA = {
- "C01": "store-level refinement over scc::HashMap / crossbeam-skiplist / epoch code: neither Verus (single-file, std only) nor Kani (ICE on thread-local destructors; collections intractable) can ingest the functions that decide it (DESIGN §1 F3,F5)",
- "C02": "the acknowledgement protocol is threads + channels (force_flush, workers, Drop) and the publication order lives in process_write_batch, which is intractable for CBMC and untypable for Verus (DESIGN §1 F4, U10); DiskIO-level ordering is proved under C03/C09",
  "C07": "linearizability over interleavings: Kani has no thread support, Verus cannot ingest std/crossbeam atomics and scc entry guards in place",
  "C08": "interleaving property (readers vs flush/retire/reuse); only sequential kernels are provable and they are reported under C10/C03",
  "C14": "range scan lives entirely on crossbeam-skiplist + epoch pins, outside both tools",
